@@ -19,9 +19,10 @@ type fifoState struct {
 }
 
 type fileState struct {
-	fifo   *fifoState
-	closed bool
-	path   string
+	fifo     *fifoState
+	closed   bool
+	path     string
+	blocking bool // (*os.File).Fd was called: the descriptor is in blocking mode, Close no longer interrupts a Read in progress
 }
 
 type fifoWriterState struct{ closed bool }
@@ -162,6 +163,10 @@ func init() {
 		}
 		return (*pv).(*opaque).data["state"].(*fileState)
 	}
+	st["(*os.File).Fd"] = func(fr *frame, args []value) value {
+		fileOf(fr.i.p, args[0]).blocking = true
+		return uintptr(3)
+	}
 	st["(*os.File).Name"] = func(fr *frame, args []value) value { return fileOf(fr.i.p, args[0]).path }
 	st["(*os.File).Close"] = func(fr *frame, args []value) value {
 		p := fr.i.p
@@ -181,8 +186,11 @@ func init() {
 		fs := fileOf(p, args[0])
 		buf := args[1].([]value)
 		f := fs.fifo
-		p.waitUntil("read-fifo", func() bool { return fs.closed || len(f.chunks) > 0 || f.writers == 0 })
 		if fs.closed {
+			return tuple{0, fr.i.mkError("read " + fs.path + ": file already closed")}
+		}
+		p.waitUntil("read-fifo", func() bool { return (fs.closed && !fs.blocking) || len(f.chunks) > 0 || f.writers == 0 })
+		if fs.closed && !fs.blocking {
 			return tuple{0, fr.i.mkError("read " + fs.path + ": file already closed")}
 		}
 		if len(f.chunks) == 0 {
